@@ -171,6 +171,11 @@ def step (_ : Unit) (toks : List Val) (_impl : String) : Unit × Out :=
     let m := Model.Math.isZero (0 : Int) (some (fun x => x % 2 == 0)) a
     ((), { model := (ofBool m).render, spec := some (ofBool (a == 0 || a % 2 == 0)).render,
            tags := [if a = 0 then "iszerom.zero" else if a % 2 == 0 then "iszerom.method-true" else "iszerom.method-false"] })
+  | [.w "iszeros", .i a] =>
+    -- the method says "zero" for the sentinel 7 only; the Go zero value is zero by the `value == zero` test, which comes first
+    let m := Model.Math.isZero (0 : Int) (some (fun x => x == 7)) a
+    ((), { model := (ofBool m).render, spec := some (ofBool (a == 0 || a == 7)).render,
+           tags := [if a = 0 then "iszeros.zero" else if a = 7 then "iszeros.sentinel" else "iszeros.other"] })
   | [.w "terncast", .i c, .i kind, .i v, .i b] =>
     -- kind 0: the dynamic type of `value` is int (assertion succeeds); kind 1: it is a string (assertion panics when evaluated)
     let value : Option Int := if kind == 0 then some v else none
